@@ -129,9 +129,9 @@ func genUntrusted(g *G, tier string, emit func(string)) {
 		em("j", "p", targets[0], a)
 	}
 	// random, structure-biased and mutated inputs into every target
-	n := 3000
+	n := 6000
 	if tier == "thorough" {
-		n = 60000
+		n = 200000
 	}
 	for i := 0; i < n; i++ {
 		tgt := targets[g.intn(len(targets))]
